@@ -30,6 +30,13 @@ def rand_time(rng, allow_none=True, p_none=0.25):
         return None
     scale = pick(rng, ["utc", "utc", "utc", "tai", "tt"])
     mjd_day = int(rng.integers(58200, 63000))       # 2018 .. 2031
+    if _side_rng(rng).random() < 0.05:
+        # a UTC day that ends in a leap second (86401 s long): 2016-12-31 or 2015-06-30, often in its last minutes
+        srng = _side_rng(rng)
+        day = int(srng.choice([57753, 57203]))
+        frac = float(srng.choice([srng.random(), 1.0 - 10.0 ** srng.uniform(-6, -2)]))
+        rng.integers(4), rng.random()       # keep the main stream in step with the ordinary branch as far as possible
+        return Time(day, frac, format="mjd", scale="utc", precision=9)
     kind = rng.integers(4)
     if kind == 0:
         frac = 0.0
